@@ -10,6 +10,7 @@ from fractions import Fraction
 import z3
 
 from . import ops
+from . import keyed
 from .ops import exc, binop, neg, is_number  # noqa: F401 (re-exported for symex)
 from .values import *  # noqa
 from .values import (
@@ -113,6 +114,8 @@ def eq_values(I, st, a, b):
     if isinstance(a, (bool, int, Fraction)) and isinstance(b, (bool, int, Fraction)):
         return a == b
     if isinstance(a, str) or isinstance(b, str):
+        if isinstance(a, Opaque) or isinstance(b, Opaque):
+            raise Unsupported("== between a string and an uninterpreted value (%s)" % (a.desc if isinstance(a, Opaque) else b.desc))
         return isinstance(a, str) and isinstance(b, str) and a == b
     if isinstance(a, tuple) and isinstance(b, tuple):
         return seq_eq(I, st, list(a), list(b))
@@ -365,10 +368,14 @@ def contains(I, st, container, item):
             yield st, I.hashable(item) in e.items
             return
         if e.kind == "dict":
-            if has_symkey(item) or dict_symkeyed(e):
+            if symmode(I, st, e, item):
                 # symbolic key against the keys (or a key against symbolic keys)
                 check_symkey(I, item)
                 yield st, disj([eq_values(I, st, k, item) for k in e.items])
+                return
+            if keyed.needs_resolution(I, st, e.items, item):
+                for st1, k1, found in keyed.resolve_key(I, st, container, item):
+                    yield st1, (k1 if isinstance(k1, Exc) else found)
                 return
             yield st, I.hashable(item) in e.items
             return
@@ -478,8 +485,19 @@ def getitem(I, st, obj, idx):
             yield from index_concrete_seq(I, st, e.items, idx, obj)
             return
         if e.kind == "dict":
-            if has_symkey(idx) or dict_symkeyed(e):
+            if symmode(I, st, e, idx):
                 yield from dict_symbolic_get(I, st, e, idx)
+                return
+            if keyed.needs_resolution(I, st, e.items, idx):
+                if e.__dict__.get("default_factory") is not None:
+                    raise Unsupported("defaultdict with keys that need == resolution")
+                for st1, k1, found in keyed.resolve_key(I, st, obj, idx):
+                    if isinstance(k1, Exc):
+                        yield st1, k1
+                    elif found:
+                        yield st1, st1.get(obj).items[k1]
+                    else:
+                        yield st1, exc("KeyError", k1)
                 return
             k = I.hashable(idx)
             if k in e.items:
@@ -604,6 +622,13 @@ def dict_symkeyed(e):
     return any(has_symkey(k) for k in e.items)
 
 
+def symmode(I, st, e, idx=None):
+    """the dictionary model for symbolic numeric keys applies (no key with a user-defined __eq__ takes part: pyvc/keyed.py)"""
+    if not ((idx is not None and has_symkey(idx)) or dict_symkeyed(e)):
+        return False
+    return not keyed.user_eq_involved(I, st, e.items, idx)
+
+
 def check_symkey(I, k):
     """keys the dictionary model accepts: concrete hashables, Int/Real terms, tuples of those"""
     if is_z3(k):
@@ -708,7 +733,20 @@ def setitem(I, st, obj, idx, v):
                             yield st2, None
                 return
         if e.kind == "dict":
-            yield from dict_store(I, st, obj, idx, v)
+            if symmode(I, st, e, idx):
+                yield from dict_store(I, st, obj, idx, v)
+                return
+            if not is_z3(idx) and keyed.needs_resolution(I, st, e.items, idx):
+                # an equal stored key keeps its place (and identity) and gets the new value, as in Python
+                for st1, k1, found in keyed.resolve_key(I, st, obj, idx):
+                    if isinstance(k1, Exc):
+                        yield st1, k1
+                    else:
+                        st1.get(obj).items[k1] = v
+                        yield st1, None
+                return
+            e.items[I.hashable(idx)] = v
+            yield st, None
             return
         if e.kind == "symlist":
             i = z3val(as_arith(idx))
@@ -740,8 +778,18 @@ def delitem(I, st, obj, idx):
     if isinstance(obj, Ref):
         e = st.get(obj)
         if e.kind == "dict":
-            if dict_symkeyed(e):
+            if symmode(I, st, e, idx):
                 raise Unsupported("del on a dictionary with symbolic keys")
+            if not is_z3(idx) and keyed.needs_resolution(I, st, e.items, idx):
+                for st1, k1, found in keyed.resolve_key(I, st, obj, idx):
+                    if isinstance(k1, Exc):
+                        yield st1, k1
+                    elif found:
+                        del st1.get(obj).items[k1]
+                        yield st1, None
+                    else:
+                        yield st1, exc("KeyError", k1)
+                return
             k = I.hashable(idx)
             if k in e.items:
                 del e.items[k]
